@@ -8,3 +8,4 @@ package lz4
 //@   invariant #0 size: 2*len(source) <= i && i <= 16*len(source)
 //@   invariant #0 written: 0 <= written && written <= len(dest)
 //@   decreases #0 16*len(source) - i
+//@   assigns nothing
